@@ -659,3 +659,124 @@ package server
 //@ assigns nothing
 //@ ensures[C04] routed_by_host_without_port_and_path: result0 != nil ==> exists i int :: 0 <= i && i < len(hostBindings(m, routingHost(req.Host))) && hostBindings(m, routingHost(req.Host))[i].service == result0 && hostBindings(m, routingHost(req.Host))[i].pathPrefix == result1 && etsMatch(result1, req.URL.Path) && forall j int :: 0 <= j && j < i ==> !etsMatch(hostBindings(m, routingHost(req.Host))[j].pathPrefix, req.URL.Path)
 //@ ensures[C04] no_service: result0 == nil ==> forall j int :: 0 <= j && j < len(hostBindings(m, routingHost(req.Host))) ==> !etsMatch(hostBindings(m, routingHost(req.Host))[j].pathPrefix, req.URL.Path)
+
+//@ func (*server.Buffer).writeToMemory
+//@ assigns b.memoryBuffer.contents, b.memBytesWritten
+//@ requires 0 <= b.memBytesWritten && b.memBytesWritten + len(p) <= 4611686018427387904
+//@ ensures[C14] all_in_memory: result0 == len(p) && err == nil && b.memoryBuffer.contents == old(b.memoryBuffer.contents) + bytes(p) && b.memBytesWritten == old(b.memBytesWritten) + len(p)
+
+//@ func (*server.Buffer).writeToDisk
+//@ requires b.diskBuffer != nil && 0 <= b.diskBytesWritten && b.diskBytesWritten + len(p) <= 4611686018427387904
+//@ assigns b.diskBuffer.content, b.diskBytesWritten
+//@ may_emit FileWrite
+//@ ensures[C14] spilled: 0 <= result0 && result0 <= len(p) && (result0 < len(p) ==> err != nil) && b.diskBuffer.content == old(b.diskBuffer.content) + substr(bytes(p), 0, result0) && b.diskBytesWritten == old(b.diskBytesWritten) + result0
+
+//@ func (*server.Buffer).createSpill
+//@ requires b.diskBuffer == nil
+//@ assigns b.diskBuffer
+//@ may_emit CreateTemp
+//@ ensures[C14] spill_file: (err == nil ==> b.diskBuffer != nil && fresh(b.diskBuffer) && b.diskBuffer.content == "") && (err != nil ==> b.diskBuffer == nil)
+
+//@ func (*server.Buffer).Write
+//@ requires bufInv(b)
+//@ requires resource_bound: b.memBytesWritten + b.diskBytesWritten + len(p) <= 4611686018427387904
+//@ assigns b.memoryBuffer.contents, b.memBytesWritten, b.diskBuffer, b.diskBuffer.content, b.diskBytesWritten, b.overflowed
+//@ may_emit CreateTemp, FileWrite
+//@ ensures[C14] invariant_kept: bufInv(b)
+//@ ensures[C14] write_after_read_refused: old(b.reader) != nil ==> result0 == 0 && err == ErrWriteAfterRead && written(b) == old(written(b)) && b.overflowed == old(b.overflowed)
+//@ ensures[C14] one_byte_over_the_limit_refused: isnil(old(b.reader)) && b.maxBytes > 0 && old(b.memBytesWritten) + old(b.diskBytesWritten) + len(p) > b.maxBytes ==> result0 == 0 && err == ErrMaximumSizeExceeded && b.overflowed && written(b) == old(written(b))
+//@ ensures[C14] up_to_the_limit_accepted: isnil(old(b.reader)) && !(b.maxBytes > 0 && old(b.memBytesWritten) + old(b.diskBytesWritten) + len(p) > b.maxBytes) ==> 0 <= result0 && result0 <= len(p) && (err == nil ==> result0 == len(p)) && written(b) == old(written(b)) + substr(bytes(p), 0, result0) && b.overflowed == old(b.overflowed)
+//@ ensures[C14] at_most_buffer_memory_in_memory: len(b.memoryBuffer.contents) <= b.maxMemBytes
+//@ ensures[C14] spills_only_when_memory_is_full: b.diskBuffer != nil && old(b.diskBuffer) == nil ==> len(old(written(b))) + len(p) > b.maxMemBytes
+
+//@ func (*server.Buffer).discardSpill
+//@ assigns nothing
+//@ may_emit FileClose, FileRemove
+//@ emits DiscardSpill(b)
+//@ ensures[C14] spill_closed_and_removed: b.diskBuffer != nil ==> emitted(FileClose(b.diskBuffer)) && emitted(FileRemove(fileName(ref(b.diskBuffer)))) && first(FileClose(_), FileRemove(_))
+//@ ensures[C14] nothing_without_spill: b.diskBuffer == nil ==> none(FileClose) && none(FileRemove)
+
+//@ func (*server.Buffer).Overflowed
+//@ assigns nothing
+//@ ensures[C14] reads_flag: result == b.overflowed
+
+//@ func (*server.Buffer).Close
+//@ assigns onceDone
+//@ may_emit FileClose, FileRemove, DiscardSpill
+//@ emits CloseBuffer(b)
+//@ ensures[C14] spill_removed_exactly_once: err == nil && onceDone(oncePtr(b)) && (old(onceDone(oncePtr(b))) ==> none(DiscardSpill)) && (!old(onceDone(oncePtr(b))) ==> count(DiscardSpill(b)) == 1)
+
+//@ func server.NewBufferedWriteCloser
+//@ assigns nothing
+//@ ensures[C14] empty_buffer_with_limits: fresh(result) && result.maxBytes == maxBytes && result.maxMemBytes == maxMemBytes && result.memBytesWritten == 0 && result.diskBytesWritten == 0 && result.diskBuffer == nil && !result.overflowed && isnil(result.reader) && written(result) == ""
+
+//@ func server.NewBufferedReadCloser
+//@ emits BufferedBody(r, maxBytes, maxMemBytes)
+//@ requires !isnil(r) && maxMemBytes >= 0
+//@ attr blocks
+//@ assigns *
+//@ may_emit *
+//@ ensures[C14] failure_discards_the_spill: err != nil ==> isnil(result0) && count(CloseBuffer(_)) == 1
+//@ ensures[C14] success_returns_the_buffer: err == nil ==> typeis(result0, `*Buffer`) && none(CloseBuffer) && as(payload(result0), `*Buffer`).maxBytes == maxBytes && as(payload(result0), `*Buffer`).maxMemBytes == maxMemBytes
+
+//@ func (*server.RequestBufferMiddleware).ServeHTTP
+//@ requires r != nil && r.URL != nil && !isnil(w) && !isnil(h.next) && !isnil(r.Body) && h.maxMemBytes >= 0
+//@ attr blocks
+//@ assigns *
+//@ may_emit *
+//@ ensures[C14] too_large_is_413_and_target_not_contacted: emitted(HttpError(w, 413)) ==> none(Forward)
+//@ ensures[C14] any_buffering_error_stops_the_request: count(HttpError(_, _)) + count(Forward(_, _, _)) == 1 && (emitted(HttpError(_, _)) ==> emitted(HttpError(w, 413)) || emitted(HttpError(w, 500)))
+//@ ensures[C14] target_contacted_only_after_the_whole_body_is_buffered: first(BufferedBody(_, _, _), Forward(_, _, _)) && all(BufferedBody, $1 == old(h.maxBytes) && $2 == old(h.maxMemBytes))
+
+//@ func (*server.Buffer).setReader
+//@ requires b.diskBuffer != nil ==> true
+//@ assigns b.reader
+//@ ensures[C14] reader_set_once: !isnil(b.reader) && (!isnil(old(b.reader)) ==> b.reader == old(b.reader))
+
+//@ func (*server.Buffer).Send
+//@ requires !isnil(w)
+//@ attr blocks
+//@ assigns b.reader, @writerFrame
+//@ may_emit Copy
+//@ emits SendBuffer(b, w)
+
+//@ func (*server.bufferedResponseWriter).ShouldSwitchToUnbuffered
+//@ requires !isnil(w.ResponseWriter)
+//@ assigns nothing
+//@ ensures[C14] event_stream_only: result == isEventStream(w)
+
+//@ func (*server.bufferedResponseWriter).Send
+//@ requires !isnil(w.ResponseWriter) && w.buffer != nil
+//@ attr blocks
+//@ assigns Buffer.reader, @writerFrame
+//@ may_emit WriteHeader, SendBuffer, Copy
+//@ ensures[C14] overflow_sends_nothing: old(w.buffer.overflowed) ==> err == ErrMaximumSizeExceeded && none(WriteHeader) && none(SendBuffer)
+//@ ensures[C14] hijacked_sends_nothing: !old(w.buffer.overflowed) && old(w.hijacked) ==> err == nil && none(WriteHeader) && none(SendBuffer)
+//@ ensures[C14] status_then_body: !old(w.buffer.overflowed) && !old(w.hijacked) ==> count(SendBuffer(_, _)) == 1 && (old(w.headerWritten) ==> emitted(WriteHeader(old(w.ResponseWriter), old(w.statusCode))) && first(WriteHeader(_, _), SendBuffer(_, _))) && (!old(w.headerWritten) ==> none(WriteHeader))
+//@ emits SendResponse(w)
+
+//@ func (*server.bufferedResponseWriter).WriteHeader
+//@ requires !isnil(w.ResponseWriter) && w.buffer != nil
+//@ attr blocks
+//@ assigns w.statusCode, w.headerWritten, w.bypass, Buffer.reader, @writerFrame
+//@ may_emit WriteHeader, SendBuffer, Copy, SendResponse
+//@ ensures[C14] first_status_wins: (old(w.headerWritten) ==> w.statusCode == old(w.statusCode) && w.bypass == old(w.bypass) && none(SendResponse)) && (!old(w.headerWritten) && !old(isEventStream(w)) ==> w.statusCode == statusCode && w.headerWritten && w.bypass == old(w.bypass) && none(SendResponse))
+//@ ensures[C14] only_event_streams_bypass: !old(w.headerWritten) && old(isEventStream(w)) ==> count(SendResponse(_)) == 1
+
+//@ func (*server.bufferedResponseWriter).Write
+//@ requires !isnil(w.ResponseWriter) && w.buffer != nil && bufInv(w.buffer) && w.buffer.memBytesWritten + w.buffer.diskBytesWritten + len(data) <= 4611686018427387904
+//@ assigns Buffer.memBytesWritten, Buffer.diskBytesWritten, Buffer.diskBuffer, Buffer.overflowed, w.buffer.memoryBuffer.contents, `os.File`.content, @writerFrame
+//@ may_emit Write, CreateTemp, FileWrite
+//@ ensures[C14] bypass_passes_through: old(w.bypass) ==> emitted(Write(old(w.ResponseWriter), result0))
+//@ ensures[C14] size_error_swallowed: !old(w.bypass) && w.buffer.overflowed && !old(w.buffer.overflowed) ==> result0 == len(data) && err == nil
+//@ ensures[C14] buffered_otherwise: !old(w.bypass) ==> none(Write)
+
+//@ func (*server.ResponseBufferMiddleware).ServeHTTP
+//@ requires r != nil && r.URL != nil && !isnil(w) && !isnil(h.next)
+//@ attr blocks
+//@ assigns *
+//@ may_emit *
+//@ ensures[C14] buffer_closed_on_every_path: count(CloseBuffer(_)) == 1
+//@ on_panic ensures[C14] buffer_closed_when_the_target_aborts: count(CloseBuffer(_)) == 1
+//@ ensures[C14] forwards_once_then_sends: count(Forward(_, _, _)) == 1 && count(SendResponse(_)) == 1 && first(Forward(_, _, _), SendResponse(_)) && first(SendResponse(_), CloseBuffer(_))
+//@ ensures[C14] overflow_is_500: count(HttpError(_, _)) <= 1 && all(HttpError, $1 == 500) && first(SendResponse(_), HttpError(_, _))
